@@ -103,16 +103,25 @@ func SourceFileFunction(env *Zlisp, name string, args []Sexp) (Sexp, error) {
 		return SexpNull, WrongNargs
 	}
 
+	// every sourced file pushes its result; the value of (source ...)
+	// is that of the last file, nothing else may stay on the stack.
+	startingDataStackSize := env.datastack.Size()
 	for _, v := range args {
 		if err := env.sourceItem(v); err != nil {
+			env.datastack.TruncateToSize(startingDataStackSize)
 			return SexpNull, err
 		}
+	}
+	if env.datastack.Size() <= startingDataStackSize {
+		// nothing was sourced (e.g. an empty list of files)
+		return SexpNull, nil
 	}
 
 	result, err := env.datastack.PopExpr()
 	if err != nil {
 		return SexpNull, err
 	}
+	env.datastack.TruncateToSize(startingDataStackSize)
 	return result, nil
 }
 
